@@ -164,7 +164,37 @@ def run(ck):
         for h, s in H.binding_sites(ub).items():
             if s['kind'] == 'let' and 'init' in s['node'] and any(H.is_call_to(x, 'CustomWidget::from_class') for x in H.calls_in(s['node']['init'])):
                 chain = s['node']['init']
-        if chain is None:
+        fcc = next((c for c in H.calls_in(ub['body']) if H.is_call_to(c, 'CustomWidget::from_class')), None)
+        lp2 = next((a for a in H.ancestors(ub, fcc) if a.get('k') == 'For'), None) if fcc is not None else None
+        if chain is None and lp2 is not None:
+            # loop form: for n in flat_iter().filter(is_custom_type) { if !seen.insert(class) { continue } if let Some(w) = from_class(..) { push } }
+            it_names = []
+            x = lp2['iter']
+            while x.get('k') == 'MCall':
+                it_names.append(x['m'])
+                x = x['recv']
+            it_names.reverse()
+            ins = [c for c in H.calls_in(lp2['body']) if c.get('m') == 'insert' and re.search(r'(Hash|BTree)Set<', L.ty(c['recv'], adjusted=True) or L.ty(c['recv']) or '')]
+            dd = False
+            on_class = False
+            for c in ins:
+                iff = H.parents(ub).get(id(c))
+                neg = False
+                while iff is not None and iff.get('k') == 'Unary' and iff.get('op') == 'Not':
+                    neg = not neg
+                    iff = H.parents(ub).get(id(iff))
+                if iff is not None and iff.get('k') == 'If' and neg and H.diverges_always(iff['then']) and H.source_before(c, fcc) and \
+                        not any(a.get('k') in ('If', 'Match') and a is not iff for a in H.ancestors(ub, c) if any(z is a for z in walk(lp2['body']))):
+                    dd = True
+                    on_class = 'typemap::class::Class' in (L.ty(c['args'][0]) or '')
+            ck.ob('R18.2', 'global-dedup', dd, L.loc(lp2), 'loop over %s with `if !seen.insert(class) { continue }` in front of from_class()' % ' -> '.join(it_names) if dd else
+                  'the loop that lists custom widgets has no test-and-set on a set of classes in front of from_class(): a component used twice is listed twice')
+            sel = any(c.get('m') == 'is_custom_type' for c in H.calls_in(lp2['iter'])) or \
+                any(c.get('m') == 'is_custom_type' and H.selects_by_negated(ub, H.parents(ub).get(id(c)) if H.parents(ub).get(id(c), {}).get('k') == 'Unary' else c) for c in H.calls_in(lp2['body']))
+            ck.ob('R18.2', 'custom-types-only', sel, L.loc(lp2), 'only objects with is_custom_type() are listed')
+            ck.ob('R18.2', 'covers-every-object', it_names[:1] == ['flat_iter'] and not any(n_ in ('skip', 'take', 'step_by', 'rev', 'take_while') for n_ in it_names), L.loc(lp2), 'starts from object_tree.flat_iter() without skipping')
+            ck.ob('R18.2', 'dedup-on-class', on_class, L.loc(lp2), 'the set holds classes (not names or headers)')
+        elif chain is None:
             ck.ob('R18.2', 'pipeline-found', False, '', 'custom-widget pipeline not found')
         else:
             names = []
